@@ -60,6 +60,13 @@ func hashLabelsMap(labels map[string]string) string {
 	return fmt.Sprintf("{%s}", strings.Join(_labels, ","))
 }
 
+// drainEntries reads a pipeline output to its end so that the producing goroutines can terminate
+// (their sends are unconditional)
+func drainEntries(out chan []shared.LogEntry) {
+	for range out {
+	}
+}
+
 func onErr(err error, res chan model.QueryRangeOutput) {
 	logger.Error(err)
 	res <- model.QueryRangeOutput{
@@ -120,6 +127,7 @@ func onErr(err error, res chan model.QueryRangeOutput) {
 //	}
 func (q *QueryRangeService) exportStreamsValue(out chan []shared.LogEntry,
 	res chan model.QueryRangeOutput) {
+	defer drainEntries(out)
 	defer close(res)
 
 	json := jsoniter.ConfigFastest
@@ -222,6 +230,7 @@ func (q *QueryRangeService) QueryRange(ctx context.Context, query string, fromNs
 		return res, nil
 	}
 	go func() {
+		defer drainEntries(out)
 		defer close(res)
 
 		json := jsoniter.ConfigFastest
@@ -440,6 +449,7 @@ func (q *QueryRangeService) QueryInstant(ctx context.Context, query string, time
 	}
 
 	go func() {
+		defer drainEntries(out)
 		defer close(res)
 		json := jsoniter.ConfigFastest
 		stream := json.BorrowStream(nil)
@@ -600,6 +610,7 @@ func (q *QueryRangeService) Tail(ctx context.Context, query string) (model.IWatc
 					}
 					if e.Err != nil {
 						onErr(e.Err, res.GetRes())
+						go drainEntries(out)
 						return
 					}
 					if i == 0 || lastFp != e.Fingerprint {
